@@ -30,6 +30,7 @@ type Run struct {
 	// logical time
 	Steps      int64
 	StepBudget int64 // 0 = unlimited
+	pools      map[*sync.Pool][]interface{}
 
 	// trace
 	traceH    hash.Hash
@@ -516,4 +517,46 @@ func OnceDo(o *sync.Once, f func()) {
 	st.running = true
 	defer func() { st.running, st.done = false, true }()
 	f()
+}
+
+// ---------------------------------------------------------------------------
+// sync.Pool of the code under test (instrumented variant)
+
+// PoolGet stands in for (*sync.Pool).Get: with an active run, the pool's
+// content is per run (every run starts with empty pools) and whether a
+// recycled object or a new one is handed out is a recorded choice.
+func PoolGet(p *sync.Pool) interface{} {
+	r := current
+	if r == nil {
+		return p.Get()
+	}
+	if r.pools == nil {
+		r.pools = map[*sync.Pool][]interface{}{}
+	}
+	st := r.pools[p]
+	if len(st) > 0 && r.T.Bool(3, 4, "pool.recycle") {
+		v := st[len(st)-1]
+		r.pools[p] = st[:len(st)-1]
+		r.Stats["pool.recycled"]++
+		return v
+	}
+	if p.New != nil {
+		return p.New()
+	}
+	return nil
+}
+
+// PoolPut stands in for (*sync.Pool).Put.
+func PoolPut(p *sync.Pool, v interface{}) {
+	r := current
+	if r == nil {
+		p.Put(v)
+		return
+	}
+	if r.pools == nil {
+		r.pools = map[*sync.Pool][]interface{}{}
+	}
+	if len(r.pools[p]) < 64 {
+		r.pools[p] = append(r.pools[p], v)
+	}
 }
